@@ -87,8 +87,14 @@ pub trait Observer: Send + Sync {
     fn before_recv(&self, ep: Endpoint) {}
     /// The wait on the endpoint is over; `msg` is what has been received, if anything.
     fn after_recv(&self, ep: Endpoint, msg: Option<(Loc, &[ElemInfo])>) {}
+    /// A worker thread is about to be spawned for a replica; called on the spawning thread (the
+    /// one running `execute_blocking`). The returned token is handed to `worker_start` on the new
+    /// thread, so that an observer can tell to which execution a worker belongs.
+    fn worker_spawn(&self, loc: Loc) -> u64 {
+        0
+    }
     /// A worker thread starts executing a replica.
-    fn worker_start(&self, loc: Loc) {}
+    fn worker_start(&self, loc: Loc, token: u64) {}
     /// A worker thread ended the execution of a replica.
     fn worker_end(&self, loc: Loc, panicked: bool) {}
 }
@@ -264,10 +270,28 @@ pub(crate) struct WorkerGuard {
     loc: Loc,
 }
 
+thread_local! {
+    /// Token obtained from `Observer::worker_spawn` for the worker running on this thread.
+    static WORKER_TOKEN: std::cell::Cell<u64> = const { std::cell::Cell::new(0) };
+}
+
+/// Called on the spawning thread before a worker thread is created.
+pub(crate) fn worker_spawn(coord: Coord) -> u64 {
+    match observer() {
+        Some(obs) => obs.worker_spawn(coord.into()),
+        None => 0,
+    }
+}
+
+/// Called first thing on the worker thread.
+pub(crate) fn set_worker_token(token: u64) {
+    WORKER_TOKEN.with(|t| t.set(token));
+}
+
 pub(crate) fn worker_guard(coord: Coord) -> WorkerGuard {
     let loc: Loc = coord.into();
     if let Some(obs) = observer() {
-        obs.worker_start(loc);
+        obs.worker_start(loc, WORKER_TOKEN.with(|t| t.get()));
     }
     WorkerGuard { loc }
 }
